@@ -317,7 +317,7 @@ pub fn check_config_for(prop: &str, cfg: &Cfg) -> Report {
 pub fn configs(args: &Args) -> Vec<Cfg> {
     let thorough = args.thorough();
     let timeout_ms = if thorough { 120_000 } else { 20_000 };
-    let grids: Vec<(usize, usize)> = if thorough { vec![(2, 2), (2, 3), (3, 2), (3, 3), (4, 3), (3, 5)] } else { vec![(2, 2), (2, 3), (3, 2), (3, 3)] };
+    let grids: Vec<(usize, usize)> = if thorough { vec![(2, 2), (2, 3), (3, 2), (3, 3), (4, 3), (3, 5), (4, 4), (5, 3)] } else { vec![(2, 2), (2, 3), (3, 2), (3, 3)] };
     let pairs = if thorough { 30 } else { 8 };
     let mut v = vec![];
     for (nx, ny) in grids {
@@ -368,7 +368,7 @@ pub fn run(args: &Args) -> Report {
     for f in FUNCTIONS {
         rep.functions.insert(f.to_string());
     }
-    rep.bounds.push(format!("grids {}; axes: independent members of the concrete rational family for x and y ({} pairs per grid), default index axes, and mixed explicit/default; trailing shapes (), (2); entry points interp_scalar / interp / interp_array (Ix1{})", if args.thorough() { "2x2, 2x3, 3x2, 3x3, 4x3, 3x5" } else { "2x2, 2x3, 3x2, 3x3" }, if args.thorough() { 30 } else { 8 }, ", IxDyn query"));
+    rep.bounds.push(format!("grids {}; axes: independent members of the concrete rational family for x and y ({} pairs per grid), default index axes, and mixed explicit/default; trailing shapes (), (2); entry points interp_scalar / interp / interp_array (Ix1{})", if args.thorough() { "2x2, 2x3, 3x2, 3x3, 4x3, 3x5, 4x4, 5x3" } else { "2x2, 2x3, 3x2, 3x3" }, if args.thorough() { 30 } else { 8 }, ", IxDyn query"));
     rep.bounds.push("every data value and both query coordinates are solver variables (reals); query constrained to the closed grid range".into());
     rep.outside.push("symbolic axes (one symbolic axis already stalls z3 on the nested divisions, DESIGN section 4)".into());
     rep.outside.push("floating-point rounding (layer N)".into());
